@@ -68,7 +68,7 @@ class LoopContract:
         self.bind = None
 
 
-LABEL = re.compile(r'^(\s*)\[([A-Za-z0-9_.\-<>:]+)\]\s*(.*)$')
+LABEL = re.compile(r'^(\s*)\[((?:[A-Za-z0-9_.\-<>:]|\[[A-Za-z0-9_.]*\])+)\]\s*(.*)$')
 
 
 def render_clauses(clauses, indent='\t'):
